@@ -321,7 +321,7 @@ pub fn run(run: &mut Run) {
     let sel = if thorough {
         Sel { m3: true, ray: Some(3), ep: Some(true), castle: Some(true), promo: Some(true), reach: Some(4), sanamb: Some((3, true)), pin2: Some(4), sanmany: true, sanpin: true, pawncap2: true, promo2: true, battery: Some((7, true)), multicheck: Some(3), checkpin: Some(3), castle2: true, hemmed: true, counts: true, promorow: true, hist: Some((3, 2)), ..Default::default() }
     } else {
-        Sel { m3: true, ray: Some(2), ep: Some(false), ep_spread_only: true, castle: Some(false), promo: Some(false), reach: Some(3), sanamb: Some((3, false)), sanamb_kings: 2, m4_corner: Some(-2), pin2: Some(2), sanmany: true, sanpin: true, pawncap2: true, battery: Some((2, false)), multicheck: Some(1), checkpin: Some(1), castle2: true, hemmed: true, counts: true, promorow: true, ..Default::default() }
+        Sel { m3: true, ep: Some(false), ep_spread_only: true, castle: Some(false), promo: Some(false), reach: Some(3), reach_take: 11, sanamb: Some((3, false)), sanamb_kings: 2, m4_corner: Some(-2), pin2: Some(2), sanmany: true, sanpin: true, pawncap2: true, pawncap2_light: true, battery: Some((2, false)), multicheck: Some(1), checkpin: Some(1), castle2: true, hemmed: true, counts: true, promorow: true, ..Default::default() }
     };
     run_universes(run, &sel, DISAGREE, &check_pos);
     if thorough {
